@@ -502,6 +502,19 @@ def worker_step(case, led):
             qnbigl, qnbigr, _ = mps._get_big_qn(cidx)
             cstruct = np.tensordot(np.asarray(mps[cidx[0]].array), np.asarray(mps[cidx[1]].array), axes=1)
             rep = dict(rep0, sweep=isw, cidx=cidx, order_before=order0)
+            cstruct_before = cstruct.copy()
+            # the ground-state sweep hands the SAME two-site array to _update_mps twice (snapshot of the best bond, then the working state): the call must
+            # neither modify its argument nor depend on having been called before
+            snap = mps.copy()
+            snap.compress_config = mps.compress_config
+            try:
+                snap._update_mps(cstruct, cidx, qnbigl, qnbigr, 0)
+                led.check(np.array_equal(cstruct, cstruct_before), "frame:MatrixProduct._update_mps:two_site_array_argument_unchanged", "MatrixProduct._update_mps",
+                          f"the caller's two-site wavefunction changed by {np.abs(cstruct - cstruct_before).max():.3e} during the call", key + ("argframe",), fields, rep)
+                cstruct = cstruct_before.copy()
+            except Exception as ex:
+                report_exception(led, ex, "total:MatrixProduct._update_mps:ofs_no_exception", "MatrixProduct._update_mps", key, fields, rep, "ofs_step")
+                return
             try:
                 mps._update_mps(cstruct, cidx, qnbigl, qnbigr, 0)
             except Exception as ex:
